@@ -34,7 +34,8 @@ def initial_cases(tier, seed):
     quick = tier == "quick"
     states = []
     for mol, nspin in (("LiH", 1), ("LiH", 2), ("NH2", 2)) + ((("H2O", 1),) if not quick else ()):
-        for fam, sl in (("SL", "npa"), ("SL", "np"), ("VJ", "npa"), ("VIJ", "npa"), ("VK", "npa"), ("VIJ", "np")):
+        # VI / VIJ2: several l=1 (vector) feature specs, whose force terms are indexed separately from the l=0 ones
+        for fam, sl in (("SL", "npa"), ("SL", "np"), ("VJ", "npa"), ("VIJ", "npa"), ("VK", "npa"), ("VIJ", "np"), ("VI", "npa"), ("VIJ2", "npa")):
             for interp in ("onsite_direct", "onsite_spline"):
                 for df in (False, True):
                     if fam == "SL" and interp != "onsite_direct":
@@ -42,7 +43,8 @@ def initial_cases(tier, seed):
                     if quick:
                         keep = (mol == "LiH" and df is False and (fam, sl, interp) in (("SL", "npa", "onsite_direct"), ("VIJ", "npa", "onsite_direct"), ("VK", "npa", "onsite_spline"))) or \
                                (mol == "NH2" and fam == "VIJ" and sl == "npa" and interp == "onsite_direct" and df is False) or \
-                               (mol == "LiH" and nspin == 1 and df is True and fam == "VJ" and interp == "onsite_direct")
+                               (mol == "LiH" and nspin == 1 and df is True and fam == "VJ" and interp == "onsite_direct") or \
+                               (mol == "LiH" and nspin == 1 and df is False and (fam, interp) in (("VI", "onsite_direct"), ("VIJ2", "onsite_spline")))
                         if not keep:
                             continue
                     states.append({"mol": mol, "nspin": nspin, "fam": fam, "sl": sl, "interp": interp, "df": df})
